@@ -118,6 +118,25 @@ func checkC18(r *run, c *TimeCase) (CaseInfo, error) {
 		}
 	}
 	{
+		// ... and the other way round: a by-value copy kept by the application (per-packet metadata) still reads the
+		// offset it was built with after the original was reused to decode the next packet
+		e2 := rtp.NewAbsCaptureTimeExtensionWithCaptureClockOffset(t, time.Duration(c.O))
+		saved := *e2
+		other := make([]byte, 16)
+		for i := range other {
+			other[i] = byte(0x53 + 7*i)
+		}
+		if err := e2.Unmarshal(other); err != nil {
+			return ci, failf("Unmarshal of 16 bytes: %v", err)
+		}
+		if d4 := saved.EstimatedCaptureClockOffsetDuration(); d4 == nil || *d4 != *d {
+			return ci, failf("capture clock offset %d ns of a by-value copy reads as %v after the extension it was copied from decoded other bytes", c.O, d4)
+		}
+		if abs64(saved.CaptureTime().UnixNano()-c.T) > 1 {
+			return ci, failf("capture time of a by-value copy moved after the extension it was copied from decoded other bytes")
+		}
+	}
+	{
 		// the offset the constructor allocated is the caller's: after writing through it, a new extension built for
 		// the same offset is still right (a shared zero value would not be)
 		*eo.EstimatedCaptureClockOffset += 5 << 32
@@ -253,7 +272,7 @@ func genTimeCase(t *rapid.T) *TimeCase {
 	return c
 }
 
-const ruleC18 = "rapid draws (instant, delay, offset): instants in [1970, NTP era end 2036) uniformly, within +-5 ms (and at +-{0,1,2,3814,3815,3816} ns) of 64 s wrap points of the 24-bit field, at whole seconds +-2 ns, at the first/last nanoseconds of 2^-18 s cells of the field, at the era edges; delays in [0, 64 s - 3815 ns] incl. 0, max and values that carry the receive time just across a wrap; offsets in (-2^31 s, 2^31 s) incl. 0, +-1 ns, +-(2^31 s - 1 ns), whole seconds; the time.Time values carry the default location or (half of the cases) a fixed-offset zone between -14 h and +14 h, independently for the send and the receive instant. Oracle (integer/big.Int arithmetic only): |CaptureTime(New(t)) - t| <= 1 ns, offset recovered within 1 ns with its sign (read twice, and once more after a by-value copy of the extension decoded other bytes), -1 ns <= t - Estimate(t+d) <= 3816 ns for the 24-bit wire value and the unmasked constructor value (each estimated twice: same answer, extension unchanged), NTP/6.18 encodings equal the exact big.Int reference. Non-trivial = receive time in another 64 s window than the send time, or non-zero offset; distinct = FNV-64 of the JSON case"
+const ruleC18 = "rapid draws (instant, delay, offset): instants in [1970, NTP era end 2036) uniformly, within +-5 ms (and at +-{0,1,2,3814,3815,3816} ns) of 64 s wrap points of the 24-bit field, at whole seconds +-2 ns, at the first/last nanoseconds of 2^-18 s cells of the field, at the era edges; delays in [0, 64 s - 3815 ns] incl. 0, max and values that carry the receive time just across a wrap; offsets in (-2^31 s, 2^31 s) incl. 0, +-1 ns, +-(2^31 s - 1 ns), whole seconds; the time.Time values carry the default location or (half of the cases) a fixed-offset zone between -14 h and +14 h, independently for the send and the receive instant. Oracle (integer/big.Int arithmetic only): |CaptureTime(New(t)) - t| <= 1 ns, offset recovered within 1 ns with its sign (read twice, and once more after a by-value copy of the extension decoded other bytes, and from a by-value copy after the extension itself decoded other bytes), -1 ns <= t - Estimate(t+d) <= 3816 ns for the 24-bit wire value and the unmasked constructor value (each estimated twice: same answer, extension unchanged), NTP/6.18 encodings equal the exact big.Int reference. Non-trivial = receive time in another 64 s window than the send time, or non-zero offset; distinct = FNV-64 of the JSON case"
 
 func TestC18(t *testing.T) {
 	r := begin(t, "C18", "exploration", ruleC18)
